@@ -93,6 +93,6 @@ def impl_writes(evs):
 def run_sim(bins, prof, variant, cases):
     """cases: list of (id, arch, kind, func, jit, x) -> {id: line}"""
     exe = os.path.join(bins[prof], "sim" if variant == "linux" else "sim_macos")
-    lines = [f"{c[0]} {c[1]} {c[2]} {c[3]:x} {c[4]:x} {c[5]:x}" + (f" {c[6]:x}" if len(c) > 6 else "") for c in cases]
+    lines = [f"{c[0]} {c[1]} {c[2]} {c[3]:x} {c[4]:x} {c[5]:x}" + (f" {c[6]:x}" if len(c) > 6 and type(c[6]) is int else (f" {c[6]}" if len(c) > 6 and type(c[6]) is str else "")) for c in cases]
     rc, res, out = vlib.run_lines(exe, lines)
     return res
